@@ -689,7 +689,11 @@ func (env *c17env) mkOp(rec *opRec) func() string {
 		}
 	case "WriteFile":
 		d := env.docs[op.D]
-		path := fmt.Sprintf("/out/t%d_%d.json", rec.Task, rec.Index)
+		// independent targets that share a directory and a stem (release0.json, release0.spdx, ...)
+		path := fmt.Sprintf("/out/release%d.%s", rec.Index%2, []string{"json", "spdx", "cdx", "xml", "txt", "sbom"}[rec.Task%6])
+		if rec.Index >= 2 {
+			path = fmt.Sprintf("/out/t%d_%d.json", rec.Task, rec.Index)
+		}
 		return func() string {
 			w := writer.New()
 			err := w.WriteFileWithOptions(d, path, &writer.Options{Format: formats.Format(op.F),
